@@ -138,6 +138,7 @@ def run(ctx):
     tasks += [(chk.corner_shard, ('vf.props.c07:SPEC32', i, 16, ctx.shard_seed(600 + i), ctx.n(4, 40))) for i in range(16)]
     for k, cn in enumerate(('v5', 'v7', 'v4', 'v7-vfp')):
         tasks += [(chk.corner_shard, ('vf.props.c07:SPEC32', i, 8, ctx.shard_seed(800 + 20 * k + i), ctx.n(2, 20), cn)) for i in range(8)]
+    tasks += [(chk.cp15_shard, ('vf.props.c07:SPEC32', i, 4, ctx.shard_seed(1400 + i))) for i in range(4)]
     tasks += [(chk.undef_shard, ('vf.props.c07:SPEC32', cn, ctx.shard_seed(1200 + k), ctx.n(40, 600))) for k, cn in enumerate(('v7-mp', 'v7-virt', 'v7-tee', 'v7r', 'v7-vfp'))]
     tasks += [(_e1p.shard_repeat, ('vf.props.c07:PLAN_REPEAT', ctx.shard_seed(900 + i), ctx.n(150, 3000))) for i in range(8)]
     tasks += _e1p.history_tasks(ctx, 'vf.props.c07:PLAN_REPEAT', quick=250)
